@@ -26,11 +26,22 @@ Lemma sample_frame_matches_code :
   sample_wire_tcp = sample_wire_writer.
 Proof. split; vm_compute; reflexivity. Qed.
 
-(* wire_id / id_to_string agree with TunnelIDFromString / TunnelIDToString on the tabulated strings *)
+(* wire_id / id_to_string agree with TunnelIDFromString / TunnelIDToString on the tabulated strings.  The tree variant is
+   probed by the harness (wire_id_variant): ids of at most 16 bytes are verbatim on both variants; longer ids are the first
+   16 bytes on the truncating tree (0) and, on a hashing tree (1), 16 bytes that are pairwise different for the tabulated
+   long ids (three of which share their first 16 bytes) *)
+Fixpoint all_distinct (l : list (list N)) : bool :=
+  match l with [] => true | x :: t => negb (existsb (bytes_eqb x) t) && all_distinct t end.
+Definition is_long (e : list N * list N * list N) : bool := (16 <? length (fst (fst e)))%nat.
+Definition row_ok (e : list N * list N * list N) : bool :=
+  (if negb (is_long e) || (wire_id_variant =? 0) then bytes_eqb (wire_id (fst (fst e))) (snd (fst e))
+   else (length (snd (fst e)) =? 16)%nat)
+  && bytes_eqb (id_to_string (snd (fst e))) (snd e).
 Lemma wire_id_matches_code :
-  forallb (fun e => bytes_eqb (wire_id (fst (fst e))) (snd (fst e)) && bytes_eqb (id_to_string (snd (fst e))) (snd e))
-          wire_id_table = true.
-Proof. vm_compute. reflexivity. Qed.
+  forallb row_ok wire_id_table = true /\
+  (wire_id_variant =? 0) || all_distinct (map (fun e => snd (fst e)) (filter is_long wire_id_table)) = true /\
+  (wire_id_variant =? 0) || (wire_id_variant =? 1) = true.
+Proof. vm_compute. auto. Qed.
 
 (* which decoder errors are io.EOF, and which FrameStream.Read reports as a clean end of stream
    (isConnectionClosedError evaluated on the real errors) *)
